@@ -244,9 +244,18 @@ def check_add(bs, acc, lcls, ld, rcls, rd, lpos=0, rpos=0):
         acc.violation('add', kind, dict(lcls=lcls, left=ld, rcls=rcls, right=rd, lpos=lpos, rpos=rpos,
                                         group='longer-right' if len(rd) > len(ld) else 'other'),
                       snippet(pre, "s + t", exp, conv=CB_SRC), exp, got)
+    # the result is a new sequence: mutating it must not reach an operand
+    if lcls in ('BitArray', 'BitStream'):
+        try:
+            r = s + t
+            r.append('0b1')
+            r.invert()
+            acc.step('add', 1, nontrivial=1, ok=1)
+        except Exception:  # noqa: BLE001 - reported by the value comparison above
+            pass
     if s.bin != ld or t.bin != rd or getattr(s, '_pos', 0) != (lpos if lcls in STREAMS else 0) or getattr(t, '_pos', 0) != (rpos if rcls in STREAMS else 0):
         acc.violation('add', 'frame', dict(lcls=lcls, left=ld, rcls=rcls, right=rd),
-                      '\n'.join(["import bitstring"] + pre + ["r = s + t", f"assert (s.bin, t.bin) == ({ld!r}, {rd!r}), (s.bin, t.bin)"]),
+                      '\n'.join(["import bitstring"] + pre + ["r = s + t", "r.append('0b1') if isinstance(r, bitstring.BitArray) else None", "r.invert() if isinstance(r, bitstring.BitArray) else None", f"assert (s.bin, t.bin) == ({ld!r}, {rd!r}), (s.bin, t.bin)"]),
                       (ld, rd), (s.bin, t.bin))
 
 
@@ -268,6 +277,21 @@ def check_promo(bs, acc, cls, d, form, od, pos=0):
     if got != exp:
         acc.violation('radd', vkind(exp, got), dict(cls=cls, data=d, form=label, other=od, pos=pos),
                       snippet(pre, f"{src} + s", exp, conv=CB_SRC), exp, got)
+    if cls in ('BitArray', 'BitStream') and label in ('str', 'hexstr'):
+        # mutate the result, then the same expression must still give the same bits (string-cache poisoning)
+        try:
+            r = s + fac()
+            r.append('0b1')
+            r.invert()
+            again = obs(lambda: s + fac(), cb)
+            acc.step('add', 1, nontrivial=1, ok=1)
+            e2 = ('ok', (cls, d + od, epos))
+            if again != e2:
+                acc.violation('add', 'value', dict(cls=cls, data=d, form=label, other=od, group='after-mutating-result'),
+                              '\n'.join(["import bitstring", f"s = {mk(cls, d, pos)}", f"r = s + {src}", "r.append('0b1'); r.invert()",
+                                         f"assert (s + {src}).bin == {d + od!r}"]), e2, again)
+        except Exception:  # noqa: BLE001
+            pass
     if s.bin != d:
         acc.violation('add', 'frame', dict(cls=cls, data=d, form=label, other=od), "# operand changed\nassert False", d, s.bin)
 
